@@ -1,6 +1,7 @@
 import Gengo.Model.Loader
 import Gengo.Lemmas.WalkInv
 import Gengo.Generated.Facts
+import Gengo.Lemmas.WalkObj
 /-! # C06 – one object per type: identity is canonical and references are closed -/
 namespace Gengo.C06
 open Gengo Gengo.Universe
@@ -211,5 +212,52 @@ theorem type_lookup_keeps_invariant (bt : List Builtin) (u : U) (n : Name) (hinv
 
 /-! non-vacuity: the empty universe has the invariant, and walking `type T struct { Next *T }` keeps it -/
 example (bt : List Builtin) : WalkInv.Inv bt {} := inv_empty bt
+
+
+/-! ### two different Go types are never merged into one object (Lemmas/WalkName.lean, WalkObj.lean) -/
+open Gengo.WalkName Gengo.WalkObj
+
+/-- **never_merged**: in a universe built by any sequence of loads, an object that is registered under two different names
+was never filled from a Go type: it has a kind but no source node, i.e. it is an object of the builtins table (the
+spellings of one predeclared type, `byte`/`uint8`, share an object on purpose) or a declaration object.  So two
+differently printed Go types are always two objects. -/
+theorem never_merged_v2 (w : World) (hwf : WalkDesc.WellFormed w.facts w.v2) (hbt : BtKinds w.bt)
+    (req : List Str) (ms : List (List Str)) (a st : LState) (h1 : newUniverseV2 w req = some a) (h2 : WalkIso.loadsV2 w a ms = some st)
+    (n1 n2 : Name) (o : Nat) (ob : Obj) (l1 : AL.lookup n1 st.u.types = some o) (l2 : AL.lookup n2 st.u.types = some o)
+    (hob : st.u.objs[o]? = some ob) (hne : n1 ≠ n2) :
+    ob.src = none ∧ (ob.kind = .declarationOf ∨ ∃ b ∈ w.bt, b.kind = ob.kind ∧ ob.name = ⟨[], b.name⟩) := by
+  have hf := WalkIso.loadsV2_faithful w hwf hbt req ms a st h1 h2
+  have hj := loadsV2_noSrc w req ms a st h1 h2
+  have key : ob.kind ≠ .unknown ∧ ob.src = none := by
+    rcases hf.2.reg n1 o ob l1 hob with k1 | ⟨e1, _⟩
+    · exact k1
+    · rcases hf.2.reg n2 o ob l2 hob with k2 | ⟨e2, _⟩
+      · exact k2
+      · exact absurd (e1.symm.trans e2) hne
+  refine ⟨key.2, ?_⟩
+  rcases hj o ob hob key.2 with hk | hk | hb
+  · exact absurd hk key.1
+  · exact .inl hk
+  · exact .inr hb
+
+/-- the same for the v1 `Builder` -/
+theorem never_merged_v1 (w : World) (hwf : WalkDesc.WellFormed w.facts w.v2) (hbt : BtKinds w.bt)
+    (req : List Str) (ps : List Str) (a st : LState) (h1 : findTypesV1 w req = some a) (h2 : WalkIso.addDirsV1 w a ps = some st)
+    (n1 n2 : Name) (o : Nat) (ob : Obj) (l1 : AL.lookup n1 st.u.types = some o) (l2 : AL.lookup n2 st.u.types = some o)
+    (hob : st.u.objs[o]? = some ob) (hne : n1 ≠ n2) :
+    ob.src = none ∧ (ob.kind = .declarationOf ∨ ∃ b ∈ w.bt, b.kind = ob.kind ∧ ob.name = ⟨[], b.name⟩) := by
+  have hf := WalkIso.addDirsV1_faithful w hwf hbt req ps a st h1 h2
+  have hj := addDirsV1_noSrc w req ps a st h1 h2
+  have key : ob.kind ≠ .unknown ∧ ob.src = none := by
+    rcases hf.2.reg n1 o ob l1 hob with k1 | ⟨e1, _⟩
+    · exact k1
+    · rcases hf.2.reg n2 o ob l2 hob with k2 | ⟨e2, _⟩
+      · exact k2
+      · exact absurd (e1.symm.trans e2) hne
+  refine ⟨key.2, ?_⟩
+  rcases hj o ob hob key.2 with hk | hk | hb
+  · exact absurd hk key.1
+  · exact .inl hk
+  · exact .inr hb
 
 end Gengo.C06
